@@ -39,7 +39,10 @@ Scan(a) ==
 IndexRecsA(a, storeIdent) ==
   LET rs == IndexRecs(a.roots, a.secs, storeIdent) IN [i \in 1..Len(rs) |-> [rs[i] EXCEPT !.off = @ + Shift(a)]]
 IndexOffsetsA(a, storeIdent, mhPrecise, q) == { o + Shift(a) : o \in IndexOffsets(a.roots, a.secs, storeIdent, mhPrecise, q) }
-EmbeddedRecs(a) == IndexRecsA(a, a.full)
+(* xid (optional field): the embedded index lists identity CIDs although the header does not carry the
+   fully-indexed characteristic -- what WrapV1 writes when it is given StoreIdentityCIDs *)
+Xid(a) == IF "xid" \in DOMAIN a THEN a.xid ELSE FALSE
+EmbeddedRecs(a) == IndexRecsA(a, a.full \/ Xid(a))
 
 ---------------------------------------------------------------------------
 (* C13: statistics of a full scan *)
